@@ -643,7 +643,7 @@ func (x *Exec) load(p Value) Value {
 		if pv.Obj == nil {
 			x.fail("load through nil pointer (should have been guarded by a nil check)")
 		}
-		return x.get(pv.Obj.Val, pv.Path)
+		return x.force(x.get(pv.Obj.Val, pv.Path))
 	case *PtrSetV:
 		var res Value
 		for i := len(pv.Alts) - 1; i >= 0; i-- {
